@@ -312,6 +312,10 @@ func catalogue() []variantSpec {
 	var vs []variantSpec
 	any6 := []int{0, 1, 2, 3, 4, 5}
 	vs = append(vs, variantSpec{"honest", "", any6, 0, false}, variantSpec{"honest-fork", "", any6, 0, false})
+	// abort points: the connection of a peer serving honest data dies after a byte budget (K picks the budget)
+	for k := 0; k < 5; k++ {
+		vs = append(vs, variantSpec{"cut-conn", fmt.Sprint(k), any6, 0, false})
+	}
 	for _, f := range hdrFields {
 		vs = append(vs, variantSpec{"hdr-field", f, any6, 0, false})
 	}
@@ -387,8 +391,15 @@ func genOne(c *hx.Ctx, v variantSpec, i int) (Scen, bool) {
 			s.Opts.Kinds = []string{"v1-siafund", "v1-siafund", "v1-transfer", "v1-form", "v1-revise", "v1-proof", "v1-revise-window"}
 			s.Opts.TxPerBlock = 2 + r.Intn(2)
 		}
-		if r.Chance(1, 3) && v.attack != "two-mismatch-then-honest" {
-			s.Batch = 3
+		if v.attack != "two-mismatch-then-honest" {
+			// the victim's request size (WithMaxSendBlocks): default, and small values down to 1
+			s.Batch = []uint64{0, 0, 3, 1, 2, 7}[r.Intn(6)]
+		}
+		if v.attack == "cut-conn" {
+			k := 0
+			fmt.Sscan(v.field, &k)
+			s.K = 2*k + r.Intn(2)
+			s.Field = ""
 		}
 		t := s.safeTree()
 		if t == nil {
@@ -501,8 +512,8 @@ func genScens(c *hx.Ctx) []Scen {
 	reps := c.Scale(2, 12)
 	for rep := 0; rep < reps; rep++ {
 		for i, v := range cat {
-			if !c.Thorough && rep == 1 && i%2 == int(c.Seed%2) {
-				continue // quick tier: the catalogue once in full and half of it a second time
+			if !c.Thorough && rep == 1 && i%4 != int(c.Seed%4) {
+				continue // quick tier: the catalogue once in full and a quarter of it a second time
 			}
 			if s, ok := genOne(c, v, i+rep); ok {
 				out = append(out, s)
